@@ -1,7 +1,7 @@
 CONSTANTS
   StartLines <- SL_Two
   Cat <- Catalogue
-  HdrIdx = {1,2,6,11,12,14,17,21,30,33}
+  HdrIdx = {1,2,6,11,14,21,30,33}
   MaxH = 2
   Bodies <- Bodies3
   Peers <- PeersOne
